@@ -9,6 +9,7 @@ from ..common import (Outcome, Violation, exc_violation, guarded,
 
 CLF_KEYS = ["pwc", "pwc_default", "gnb", "lr", "tree_clf", "mmc"]
 ENCS = ["float10_nan", "int_m1", "int_99", "obj_none", "str_zz", "str_empty"]
+CLF_ENCS = ENCS + ["objnum_none", "str_long"]
 STREAM_NAMES = ["FixedUncertainty", "VariableUncertainty", "Split",
                 "RandomVariableUncertainty", "StreamProbabilisticAL",
                 "StreamDensityBasedAL", "CognitiveDualQueryStrategyFixUn",
@@ -35,7 +36,7 @@ def _clf_case(draw):
     if key in ("pwc", "gnb", "lr", "tree_clf") and draw(st.booleans()):
         sw = [round(draw(st.floats(0.2, 2.0)), 2) for _ in X]
     return dict(kind="clf", clf=key, K=K, X=X, yid=yid, Xq=Xq, cost=cost,
-                sample_weight=sw, enc2=draw(st.sampled_from(ENCS)),
+                sample_weight=sw, enc2=draw(st.sampled_from(CLF_ENCS)),
                 seed=draw(st.integers(0, 2**31 - 1)))
 
 
